@@ -2,14 +2,14 @@ SPECIFICATION Spec
 CONSTANTS
   MaxBlocks = 2
   MaxReqs = 2
-  Templates = {"o23", "ref", "dq"}
-  PatchKinds = {"plain2", "ref", "bytes"}
+  Templates = {"o23", "jmp", "d3"}
+  PatchKinds = {"plain2", "plain7", "bytes"}
   FnLayouts = {"none"}
   EndSyms = {FALSE}
-  AnnModes = {"none", "blk", "bi"}
+  AnnModes = {"none"}
   WithProxyDel = FALSE
   CfiLayouts = {"none"}
-  Isa = "x64"
+  Isa = "arm64"
   Emit = TRUE
 INVARIANT Inv
 CHECK_DEADLOCK FALSE
